@@ -149,6 +149,79 @@ theorem immix_exact (v : Bits) (objs : List GObj) (blocks : List (Nat × Nat))
       · exact h
     · exact Or.inr
 
+/-! ### line-level `Block::sweep`: reusable or not, a surviving block's VO bits are refreshed -/
+
+theorem markedLines_eq_zero (lm : Nat → Bool) (n : Nat) : markedLines lm n = 0 ↔ ∀ k, k < n → lm k = false := by
+  simp only [markedLines, List.length_eq_zero_iff, List.filter_eq_nil_iff, List.mem_range, Bool.not_eq_true]
+
+theorem markedLines_full (lm : Nat → Bool) (n : Nat) (h : ∀ k, k < n → lm k = true) : markedLines lm n = n := by
+  have : (List.range n).filter lm = List.range n := List.filter_eq_self.2 (fun k hk => h k (List.mem_range.1 hk))
+  simp [markedLines, this]
+
+/-- the VO effect of the line-level sweep does not depend on reusability: it is `sweepBlock`'s, provided the line
+marks agree with the mark bits on "the block holds a live object" (`mark_lines_for_object` marks the lines of every
+object that is marked or copied into the block). -/
+theorem sweepBlockLines_vo (objs : List GObj) (lm : Nat → Bool) (n : Nat) (v : Bits) (b : Nat × Nat)
+    (hlm : (∃ k, k < n ∧ lm k = true) ↔ (liveFwd objs).any (inRange b) = true) :
+    (sweepBlockLines (marksAfter objs) lm n v b).1 = sweepBlock (marksAfter objs) (liveFwd objs) v b := by
+  unfold sweepBlockLines sweepBlock
+  by_cases h0 : markedLines lm n = 0
+  · have hno : ¬ (liveFwd objs).any (inRange b) = true := by
+      intro hl
+      obtain ⟨k, hk, hm⟩ := hlm.2 hl
+      rw [(markedLines_eq_zero lm n).1 h0 k hk] at hm; cases hm
+    simp only [h0, if_true, if_neg hno]
+  · have hyes : (liveFwd objs).any (inRange b) = true := by
+      apply hlm.1
+      by_contra hc
+      exact h0 ((markedLines_eq_zero lm n).2 fun k hk => by
+        cases hv : lm k with
+        | false => rfl
+        | true => exact absurd ⟨k, hk, hv⟩ hc)
+    simp only [h0, if_false, if_pos hyes]
+    split_ifs <;> rfl
+
+theorem gcImmixLines_eq (v : Bits) (objs : List GObj) (blocks : List (Nat × Nat)) (lm : Nat × Nat → Nat → Bool) (n : Nat)
+    (hlm : ∀ b ∈ blocks, (∃ k, k < n ∧ lm b k = true) ↔ (liveFwd objs).any (inRange b) = true) :
+    gcImmixLines v objs blocks lm n = gcImmix v objs blocks := by
+  unfold gcImmixLines gcImmix
+  generalize setAll v (liveFwd objs) = w
+  induction blocks generalizing w with
+  | nil => rfl
+  | cons b bs ih =>
+    simp only [List.foldl_cons]
+    rw [sweepBlockLines_vo objs (lm b) n w b (hlm b List.mem_cons_self)]
+    exact ih (fun b' hb' => hlm b' (List.mem_cons_of_mem _ hb')) _
+
+/-- **C07 (Immix, line level)**: exactness holds for the line-level sweep of every block, reusable or not. -/
+theorem immix_lines_exact (v : Bits) (objs : List GObj) (blocks : List (Nat × Nat)) (lm : Nat × Nat → Nat → Bool) (n : Nat)
+    (hex : ∀ x, v x = true ↔ x ∈ refs objs)
+    (hin : ∀ o ∈ objs, inAny blocks o.ref = true) (hfin : ∀ o ∈ objs, o.live = true → inAny blocks o.fwd = true)
+    (hlm : ∀ b ∈ blocks, (∃ k, k < n ∧ lm b k = true) ↔ (liveFwd objs).any (inRange b) = true) :
+    ∀ x, gcImmixLines v objs blocks lm n x = true ↔ x ∈ liveFwd objs := by
+  rw [gcImmixLines_eq v objs blocks lm n hlm]
+  exact immix_exact v objs blocks hex hin hfin
+
+/-- **C07 (completely full block)**: a block that ends the collection with NO free line — all `n` lines marked, so
+`Block::sweep` answers `NoReuse` and does not push it to the reusable blocks — still has exactly the survivors' VO
+bits afterwards: a dead object that shares its line(s) with survivors is no longer reported. -/
+theorem immix_exact_full_block (v : Bits) (objs : List GObj) (blocks : List (Nat × Nat)) (lm : Nat × Nat → Nat → Bool) (n : Nat)
+    (hex : ∀ x, v x = true ↔ x ∈ refs objs)
+    (hin : ∀ o ∈ objs, inAny blocks o.ref = true) (hfin : ∀ o ∈ objs, o.live = true → inAny blocks o.fwd = true)
+    (hlm : ∀ b ∈ blocks, (∃ k, k < n ∧ lm b k = true) ↔ (liveFwd objs).any (inRange b) = true)
+    (b : Nat × Nat) (hn : 0 < n) (hfull : ∀ k, k < n → lm b k = true) :
+    (∀ w, (sweepBlockLines (marksAfter objs) (lm b) n w b).2 = .noReuse) ∧
+    (∀ x, inRange b x = true → (gcImmixLines v objs blocks lm n x = true ↔ x ∈ liveFwd objs)) ∧
+    (∀ d ∈ objs, d.live = false → d.ref ∉ liveFwd objs → gcImmixLines v objs blocks lm n d.ref = false) := by
+  refine ⟨fun w => ?_, fun x _ => immix_lines_exact v objs blocks lm n hex hin hfin hlm x, fun d _ _ hd => ?_⟩
+  · unfold sweepBlockLines
+    have hm := markedLines_full (lm b) n hfull
+    have h0 : ¬ n = 0 := by omega
+    simp [hm, h0]
+  · cases h : gcImmixLines v objs blocks lm n d.ref with
+    | false => rfl
+    | true => exact absurd ((immix_lines_exact v objs blocks lm n hex hin hfin hlm d.ref).1 h) hd
+
 theorem compact_fold (objs : List GObj) (v : Bits) (hs : (refs objs).Pairwise (· < ·))
     (hle : ∀ o ∈ objs, o.live = true → o.fwd ≤ o.ref) (x : Nat) :
     gcCompact v objs x = true ↔ (x ∈ liveFwd objs ∨ (v x = true ∧ x ∉ refs objs)) := by
@@ -369,6 +442,20 @@ example : ∀ x, gc (.copy [(0x1000, 0x1000)]) (fun x => decide (x ∈ refs demo
 def demoCompact : List GObj := [⟨16, false, 16⟩, ⟨48, true, 16⟩, ⟨80, true, 56⟩]
 example : ∀ x, gc .compact (fun x => decide (x ∈ refs demoCompact)) demoCompact x = true ↔ x ∈ [16, 56] :=
   vo_exact_after_full_gc _ _ _ (by intro x; simp) ⟨by decide, by decide⟩
+
+/-- a "block" of two 256-byte lines at 0x8000 completely filled with four 128-byte objects, the first of each line
+survives, the second is dead: both lines stay marked (no free line, `NoReuse`), the dead objects lose their bit -/
+def demoFull : List GObj := [⟨0x8008, true, 0x8008⟩, ⟨0x8088, false, 0x8088⟩, ⟨0x8108, true, 0x8108⟩, ⟨0x8188, false, 0x8188⟩]
+example : (∀ w, (sweepBlockLines (marksAfter demoFull) (fun _ => true) 2 w (0x8000, 512)).2 = .noReuse) ∧
+    (∀ x, inRange (0x8000, 512) x = true →
+      (gcImmixLines (fun x => decide (x ∈ refs demoFull)) demoFull [(0x8000, 512)] (fun _ _ => true) 2 x = true ↔ x ∈ liveFwd demoFull)) ∧
+    (∀ d ∈ demoFull, d.live = false → d.ref ∉ liveFwd demoFull →
+      gcImmixLines (fun x => decide (x ∈ refs demoFull)) demoFull [(0x8000, 512)] (fun _ _ => true) 2 d.ref = false) :=
+  immix_exact_full_block _ demoFull [(0x8000, 512)] (fun _ _ => true) 2 (by intro x; simp) (by decide) (by decide)
+    (by intro b hb; simp only [List.mem_singleton] at hb; subst hb; exact ⟨fun _ => by decide, fun _ => ⟨0, by decide, rfl⟩⟩)
+    (0x8000, 512) (by decide) (fun _ _ => rfl)
+example : gcImmixLines (fun x => decide (x ∈ refs demoFull)) demoFull [(0x8000, 512)] (fun _ _ => true) 2 0x8088 = false ∧
+    gcImmixLines (fun x => decide (x ∈ refs demoFull)) demoFull [(0x8000, 512)] (fun _ _ => true) 2 0x8108 = true := by decide
 
 example : enumerate (setAll (fun _ => false) [8, 24, 4096]) [(0, 4), (4096, 2)] [70000] = [8, 24, 4096, 70000] := by decide
 
